@@ -273,4 +273,42 @@ def rule_d(ctx: Ctx, rule: str = 'C20.d') -> None:
                 'in the schema drivers every local initialised from such a list must be a copy (slice, list(), .copy()).')
 
 
-RULES = [rule_a, rule_b, rule_c, rule_d]
+def rule_e(ctx: Ctx) -> None:
+    """Path selection goes through a process-wide cache of compiled selectors: the cache key must determine everything the
+    compiled selector depends on - the path text, the class and the namespace map with its *URIs*, not only its prefixes."""
+    rule = 'C20.e'
+    f = ctx.idx.method('xmlschema.xpath.selectors.ElementSelector', 'cached_selector')
+    ctx.analysed(f.qualname)
+    # what the cached value is built from
+    builds = [c for c in calls(f.node) if text(c.func) in ('cls', 'ElementSelector', 'self.__class__')]
+    ctx.floor(rule, 'constructions of the cached selector', len(builds), 1)
+    used = {x.id for c in builds for a in list(c.args) + [k.value for k in c.keywords] for x in ast.walk(a) if isinstance(x, ast.Name)} & set(f.params)
+    # the key: every definition / extension of the local that subscripts the cache
+    keys = {text(x.slice) for x in ast.walk(f.node) if isinstance(x, ast.Subscript) and isinstance(x.slice, ast.Name)
+            and isinstance(x.value, ast.Name) and x.value.id.endswith('_cache')}
+    if len(keys) != 1:
+        raise AnalysisError(f'UNRECOGNISED-IDIOM {rule}: cache subscripts {sorted(keys)} in {f.qualname}')
+    kv = keys.pop()
+    parts = [s.value for s in walk_no_nested(f.node)
+             if isinstance(s, (ast.Assign, ast.AnnAssign, ast.AugAssign)) and getattr(s, 'value', None) is not None
+             and text(s.targets[0] if isinstance(s, ast.Assign) else s.target) == kv]
+    ctx.floor(rule, 'definitions of the cache key', len(parts), 1)
+    for p in sorted(used):
+        occ = [(x, part) for part in parts for x in ast.walk(part) if isinstance(x, ast.Name) and x.id == p]
+        ok = bool(occ)
+        det = '' if ok else f'`{p}` is an input of the compiled selector but not part of the cache key'
+        ann = next((a.annotation for a in f.node.args.args + f.node.args.kwonlyargs if a.arg == p), None)
+        if ok and ann is not None and ('Nsmap' in text(ann) or 'Mapping' in text(ann) or 'dict' in text(ann).lower()):
+            # a mapping contributes its items (keys and values); iterating it, sorting it or taking its keys contributes the keys only
+            full = any(isinstance(c, ast.Call) and isinstance(c.func, ast.Attribute) and c.func.attr == 'items' and text(c.func.value) == p
+                       for part in parts for c in ast.walk(part))
+            ok = full
+            det = '' if ok else (f'the key is built from the prefixes of `{p}` only: a selector compiled for one binding of a prefix is reused for a '
+                                 'document that binds the same prefix (or the default namespace) to another URI - the path then selects nothing '
+                                 'and partial validation reports a valid part')
+        ctx.ob(rule, f'cached_selector: the cache key determines the `{p}` the selector is compiled with', f.loc(), ok, det, key=f'cached_selector|key|{p}')
+    ctx.explain('C20.e: parameters flowing into the construction of the cached selector must occur in the definitions of the cache '
+                'key; a mapping parameter must occur through `.items()`.')
+
+
+RULES = [rule_a, rule_b, rule_c, rule_d, rule_e]
